@@ -5,6 +5,7 @@ CONSTANTS
   MaxDev = 1
   Alphabets <- AlphabetsDef
   MaxTok = 3
+  TokCap <- TokCapDef
   Recs = 3
   Damages <- DamagesDef
   Drivers = {"secrets", "configmaps"}
